@@ -43,13 +43,21 @@ def mocker_ok(m, endpoint):
     return not is_absent(ep) and not same(m._matches, m._calls)
 
 
+def first_of(xs):
+    return xs[0]
+
+
+def tail_of(xs):
+    return xs[1:]
+
+
 @contract('pjrpc.client.integrations.pytest:PjRpcMocker._match_request', props=['C20'])
 class MatchRequest:
     types = {'self': 'pjrpc.client.integrations.pytest:PjRpcMocker', 'endpoint': 'str', 'version': 'str',
              'method_name': 'str', 'params': 'opt:list|dict', 'id': 'opt:int|str'}
     raises_only = ('Exception',)        # only what a user callback raises
     result_type = '=pjrpc.common.v20:Response'
-    frame_unchecked = True
+    modifies = ('$trace', '$containers')      # the nested patch / call maps and their lists; no attribute changes
     cross_check = False
 
     def requires_patched_endpoint(self, endpoint, version, method_name, params, id):
@@ -69,33 +77,10 @@ class MatchRequest:
         # C20: the reply carries the request id (a call has an id: int or str, any value)
         return id is None or same(result._id, id)
 
-
-def first_of(xs):
-    return xs[0]
-
-
-def tail_of(xs):
-    return xs[1:]
-
-
-@contract('pjrpc.client.integrations.pytest:PjRpcMocker._match_request@rr', props=['C20'])
-class MatchRequestRoundRobin:
-    """the same function, second contract (the state-machine part): patches are used in round-robin order of their
-    addition, a `once` patch exactly once; the call is recorded; the reply is what the patch says"""
-    types = {'self': 'pjrpc.client.integrations.pytest:PjRpcMocker', 'endpoint': 'str', 'version': 'str',
-             'method_name': 'str', 'params': 'opt:list|dict', 'id': 'opt:int|str'}
-    raises_only = ('Exception',)
-    result_type = '=pjrpc.common.v20:Response'
-    frame_unchecked = True
-    cross_check = False
-
-    def requires_patched(self, endpoint, version, method_name, params, id):
-        ps = patches(self, endpoint, version, method_name)
-        if not (mocker_ok(self, endpoint) and not isinstance(id, bool)):
-            return False
-        return not is_absent(ps) and len(ps) > 0 and all(match_ok(m) for m in ps)
-
+    # ---- the state-machine part (patched method): round-robin, once, recorded, configured reply
     def ensures_rotation(self, endpoint, version, method_name, params, id, result):
+        if is_absent(old(patches(self, endpoint, version, method_name))):
+            return True
         # C20: the first patch answers; it goes to the back of the queue unless it is a `once` patch, which is dropped
         before = old(tuple(patches(self, endpoint, version, method_name)))
         used = first_of(before)
@@ -107,6 +92,8 @@ class MatchRequestRoundRobin:
         return not is_absent(now) and seq_same(now, seq_concat(tail_of(before), (used,)))
 
     def ensures_reply(self, endpoint, version, method_name, params, id, result):
+        if is_absent(old(patches(self, endpoint, version, method_name))):
+            return True
         # C20: configured result / error of the patch that answered (no callback), under the request id
         used = old(first_of(patches(self, endpoint, version, method_name)))
         if used.callback is not None:
@@ -116,6 +103,8 @@ class MatchRequestRoundRobin:
                 and same(result._id, id if id is not None else member(d, 'id')))
 
     def ensures_callback_reply(self, endpoint, version, method_name, params, id, result):
+        if is_absent(old(patches(self, endpoint, version, method_name))):
+            return True
         # C20: with a callback the reply carries the callback value (the last event) under the request id
         used = old(first_of(patches(self, endpoint, version, method_name)))
         if used.callback is None:
@@ -125,6 +114,8 @@ class MatchRequestRoundRobin:
                 and same(ev_callee(n - 1), used.callback) and same(result._result, ev_value(n - 1)))
 
     def ensures_recorded(self, endpoint, version, method_name, params, id, result):
+        if is_absent(old(patches(self, endpoint, version, method_name))):
+            return True
         # C20: the call is recorded under its endpoint and method: the mock stored there was called with the params
         rec = member(member(self._calls, endpoint), (version, method_name))
         b = old(tlen())
@@ -138,3 +129,59 @@ class MatchRequestRoundRobin:
         if isinstance(params, dict):
             return len(ev_args(b + 1)) == 0 and dict_eq(ev_kwargs(b + 1), params)
         return len(ev_args(b + 1)) == 1 and same(ev_args(b + 1)[0], params)
+
+
+from spec.prims import dict_same_except
+
+
+def patch_is(m, endpoint, version, method_name, once, callback, id, result, error):
+    """the Match object add / replace build from their arguments"""
+    d = m.response_data
+    return (isinstance(m, Match) and same(m.endpoint, endpoint) and same(m.version, version)
+            and same(m.method_name, method_name) and same(m.once, once) and same(m.callback, callback)
+            and isinstance(d, dict) and len(d) == 3 and same(member(d, 'id'), id) and same(member(d, 'result'), result)
+            and same(member(d, 'error'), error))
+
+
+from pjrpc.client.integrations.pytest import Match
+
+
+@contract('pjrpc.client.integrations.pytest:PjRpcMocker.add', props=['C20'])
+class MockerAdd:
+    types = {'self': 'pjrpc.client.integrations.pytest:PjRpcMocker', 'endpoint': 'str', 'method_name': 'str',
+             'result': 'any', 'error': 'any', 'id': 'opt:int|str', 'version': 'str', 'once': 'bool',
+             'callback': 'opt:=UserCallback'}
+    raises_only = ()
+    modifies = ('$containers',)
+    cross_check = False
+
+    def requires_separate_maps(self, endpoint, method_name, result, error, id, version, once, callback):
+        # representation invariant: the outer map, its per-endpoint maps and the call records are different objects
+        return not same(self._matches, self._calls) and not same(member(self._matches, endpoint), self._matches)
+
+    def ensures_length(self, endpoint, method_name, result, error, id, version, once, callback):
+        # C20: patches for one (endpoint, method) are kept in the order of their addition: one more than before
+        now = patches(self, endpoint, version, method_name)
+        if is_absent(now):
+            return False
+        n0 = 0 if is_absent(old(patches(self, endpoint, version, method_name))) else old(len(patches(self, endpoint, version, method_name)))
+        return len(now) == n0 + 1
+
+    def ensures_new_one_last(self, endpoint, method_name, result, error, id, version, once, callback):
+        now = patches(self, endpoint, version, method_name)
+        return patch_is(now[len(now) - 1], endpoint, version, method_name, once, callback, id, result, error)
+
+    def ensures_earlier_ones_keep_their_order(self, endpoint, method_name, result, error, id, version, once, callback):
+        if is_absent(old(patches(self, endpoint, version, method_name))):
+            return True
+        now = patches(self, endpoint, version, method_name)
+        return seq_same(now, seq_concat(old(tuple(patches(self, endpoint, version, method_name))), (now[len(now) - 1],)))
+
+    def ensures_other_patches_untouched(self, endpoint, method_name, result, error, id, version, once, callback):
+        # whole-view postcondition: every other endpoint and every other method of this endpoint keeps its patches
+        if not dict_same_except(self._matches, endpoint):
+            return False
+        ep0 = old(member(self._matches, endpoint))
+        if is_absent(ep0):
+            return len(member(self._matches, endpoint)) == 1
+        return same(member(self._matches, endpoint), ep0) and dict_same_except(ep0, (version, method_name))
